@@ -304,11 +304,16 @@ pub fn interpret_position(tokens: &[&str]) -> PosCmd {
     let (start, rest) = match tokens[1] {
         "startpos" => (Pos::start(), &tokens[2..]),
         "fen" => {
-            if tokens.len() < 8 {
+            // the FEN is what stands between `fen` and `moves` (or the end): four to six fields
+            let end = tokens[2..]
+                .iter()
+                .position(|t| *t == "moves")
+                .map_or(tokens.len(), |i| i + 2);
+            if !(6..=8).contains(&end) {
                 return PosCmd::Malformed;
             }
-            match Pos::from_fen(&tokens[2..8].join(" ")) {
-                Ok(p) if p.is_sane() => (p, &tokens[8..]),
+            match Pos::from_fen(&tokens[2..end].join(" ")) {
+                Ok(p) if p.is_sane() => (p, &tokens[end..]),
                 _ => return PosCmd::Malformed,
             }
         }
